@@ -26,7 +26,7 @@ class Arg:
         if isinstance(v, bool):
             return False
         if isinstance(v, int):
-            return -300 <= v <= 723
+            return -300 <= v <= 2023
         if isinstance(v, float):
             k = v * 4
             return k == int(k) and -300 <= int(k) <= 723
@@ -72,6 +72,9 @@ class Builder:
             if 0 <= a.v <= 1023 and a.v % 2 == 0:
                 self.inputs.append(a.v)
                 return name
+            if a.v > 723:
+                self.inputs.append(a.v - 1000)
+                return f"{name} + 1000"
             self.inputs.append(a.v + 300)
             return f"{name} - 300"
         k = int(a.v * 4)
@@ -109,7 +112,8 @@ def run_firmware(builders):
         elif r["rc"] != 0:
             out[n] = {"ok": False, "why": f"sketch exit status {r['rc']}: {r['stderr'][-300:]}", "script": scripts[n]}
         else:
-            out[n] = {"ok": True, "cases": fw.split_cases(r["events"]), "script": scripts[n]}
+            first = next((k for k, e in enumerate(r["events"]) if e.startswith("S ##case ")), len(r["events"]))
+            out[n] = {"ok": True, "cases": fw.split_cases(r["events"]), "script": scripts[n], "prelude": r["events"][:first]}
     return out
 
 
